@@ -210,7 +210,7 @@ def judge(e, tpl, rc, err, tokstr):
         return 'accepted', 'status 0'
     if rc != 1:
         return 'crash', 'status %r: %s' % (rc, err[:200])
-    line = err.strip().split('\n')[0] if err.strip() else ''
+    line = err.lstrip('\n').split('\n')[0] if err.strip() else ''      # keep trailing blanks: an empty %s leaves one
     if not DIAG.match(line):
         return 'nodiag', 'no diagnostic in the standard form: %r' % err[:200]
     rx = expected_regex(e, tokstr)
